@@ -28,7 +28,10 @@ func validBodies() map[string][]byte {
 	poll, _ := messages.EncodeProxyPollRequestWithRelayPrefix("sid-x", "standalone", "unrestricted", 0, "")
 	ans, _ := messages.EncodeAnswerRequest("an answer", "sid-x")
 	cl, _ := (&messages.ClientPollRequest{Offer: "an offer", NAT: "restricted"}).EncodeClientPollRequest()
-	return map[string][]byte{"poll": poll, "answer": ans, "client": cl, "legacy": []byte("{\"type\":\"offer\",\"sdp\":\"legacy\"}")}
+	unl, _ := (&messages.ClientPollRequest{Offer: "an offer", NAT: "restricted", Fingerprint: "FFFFFFFFFFFFFFFFFFFFFFFFFFFFFFFFFFFFFFFF"}).EncodeClientPollRequest()
+	unl32, _ := (&messages.ClientPollRequest{Offer: "an offer", NAT: "unknown", Fingerprint: goodFP32}).EncodeClientPollRequest()
+	return map[string][]byte{"poll": poll, "answer": ans, "client": cl, "legacy": []byte("{\"type\":\"offer\",\"sdp\":\"legacy\"}"),
+		"client-unlisted-bridge": unl, "client-unlisted-bridge32": unl32}
 }
 
 func mutateBody(t *rapid.T, b []byte) []byte {
@@ -66,7 +69,7 @@ func mutateBody(t *rapid.T, b []byte) []byte {
 
 func genBody(t *rapid.T) ([]byte, string) {
 	vb := validBodies()
-	keys := []string{"poll", "answer", "client", "legacy"}
+	keys := []string{"poll", "answer", "client", "legacy", "client-unlisted-bridge", "client-unlisted-bridge32", "client"}
 	switch rapid.IntRange(0, 9).Draw(t, "bodykind") {
 	case 0, 1, 2:
 		k := rapid.SampledFrom(keys).Draw(t, "valid")
@@ -126,6 +129,17 @@ func genHTTPEvent(t *rapid.T, at int64) (event, string) {
 	}
 	var lbl string
 	e.Body, lbl = genBody(t)
+	if rapid.IntRange(0, 2).Draw(t, "matchroute") != 0 {
+		// most bodies go to the route that parses them, with POST, so that the handlers' logic is reached
+		switch {
+		case strings.HasPrefix(lbl, "valid client") || lbl == "valid legacy" || lbl == "mutated" && bytes.HasPrefix(e.Body, []byte("1.0")):
+			e.Method, e.Path = "POST", "/client"
+		case lbl == "valid answer":
+			e.Method, e.Path = "POST", "/answer"
+		case lbl == "valid poll":
+			e.Method, e.Path = "POST", "/proxy"
+		}
+	}
 	e.Remote = rapid.SampledFrom([]string{"203.0.113.9:1234", "[2001:db8::1]:443", "not-an-address", ""}).Draw(t, "remote")
 	return e, lbl
 }
